@@ -399,7 +399,7 @@ func (e *Evaluator) generalReferenceEvaluation(
 			return err
 		}
 
-		p.SetLastEvaluatedT(methodT)
+		p.SetLastEvaluatedT(methodT.DeepCopy())
 
 		return nil
 
@@ -412,7 +412,7 @@ func (e *Evaluator) generalReferenceEvaluation(
 
 		p.Unget()
 
-		p.SetLastEvaluatedT(methodT)
+		p.SetLastEvaluatedT(methodT.DeepCopy())
 
 		return e.evalPriorityExp(p, ctx)
 	}
@@ -735,7 +735,7 @@ func (s *SquareBracket) Evaluation(
 	methodT := base.GetMethodT(ctx.GetFrame(), base.TypeToString(&lastT), "[]", false)
 	if methodT != nil && !t.IsBeforeSpace {
 		p.SkipToTargetToken("]")
-		p.SetLastEvaluatedT(methodT)
+		p.SetLastEvaluatedT(methodT.DeepCopy())
 
 		return nil
 	}
